@@ -13,6 +13,7 @@ package c20
 import (
 	"fmt"
 	"os"
+	"runtime"
 	"sort"
 	"strings"
 	"sync"
@@ -89,6 +90,40 @@ type vfCall struct {
 	Kind     string
 	Payload  string
 	Panicked bool
+	// the instance's counters right after this call
+	NInit, NInh, NClose int
+}
+
+// vfWithoutMarkers drops the sentinel markers from a slice of ledger entries.
+func vfWithoutMarkers(calls []vfCall) []vfCall {
+	var out []vfCall
+	for _, c := range calls {
+		if c.Op != "marker" {
+			out = append(out, c)
+		}
+	}
+	return out
+}
+
+var vfStackBuf = make([]byte, 1<<20)
+
+// vfRegistryParkedInSend reports whether a goroutine is parked in a channel send inside
+// ObjectRegistry.applyConfig (the registry blocked on a full watcher queue).
+func vfRegistryParkedInSend() bool {
+	n := runtime.Stack(vfStackBuf, true)
+	for _, g := range strings.Split(string(vfStackBuf[:n]), "\n\n") {
+		if !strings.Contains(g, "supervisor.(*ObjectRegistry).applyConfig") {
+			continue
+		}
+		head := g
+		if i := strings.Index(g, "\n"); i >= 0 {
+			head = g[:i]
+		}
+		if strings.Contains(head, "[chan send") {
+			return true
+		}
+	}
+	return false
 }
 
 func (c vfCall) String() string {
@@ -126,6 +161,11 @@ type vfLedger struct {
 	step    int
 	plan    map[string]int
 	barrier chan string // "<sentinel name>=<payload>"
+	// "callback blocks until released": "<step>/<object name>"; the first Init/Inherit on it parks
+	block   string
+	blocked bool
+	parked  chan string
+	release chan struct{}
 }
 
 var (
@@ -167,6 +207,10 @@ func (c *vfCore) record(op string, prev *vfCore, prevDesc string) {
 	}
 	if c.owner == vfSentinelCtl || c.owner == vfSentinelGate {
 		if op != "close" {
+			// a marker in the ledger (orders the consumer's callbacks against the sentinel bumps) and a report
+			l.mu.Lock()
+			l.calls = append(l.calls, vfCall{Op: "marker", Core: c, Level: c.level, Owner: c.owner, Payload: c.payload})
+			l.mu.Unlock()
 			select {
 			case l.barrier <- c.owner + "=" + c.payload:
 			default:
@@ -195,8 +239,17 @@ func (c *vfCore) record(op string, prev *vfCore, prevDesc string) {
 	if l.plan[key]&bit != 0 {
 		call.Panicked = true
 	}
+	call.NInit, call.NInh, call.NClose = c.nInit, c.nInh, c.nClose
 	l.calls = append(l.calls, call)
+	park := false
+	if op != "close" && l.block != "" && !l.blocked && l.block == fmt.Sprintf("%d/%s", l.step, c.owner) {
+		l.blocked, park = true, true
+	}
 	l.mu.Unlock()
+	if park {
+		l.parked <- c.owner
+		<-l.release
+	}
 	if call.Panicked {
 		panic(fmt.Sprintf("vf injected panic in %s of %s", op, c.desc()))
 	}
@@ -463,7 +516,7 @@ func TestVerifC20EndToEnd(t *testing.T) {
 	defer os.RemoveAll(home)
 
 	rapid.Check(t, func(rt *rapid.T) {
-		led := &vfLedger{plan: map[string]int{}, barrier: make(chan string, 64)}
+		led := &vfLedger{plan: map[string]int{}, barrier: make(chan string, 256), parked: make(chan string, 1), release: make(chan struct{})}
 		vfSetLedger(led)
 		defer vfSetLedger(nil)
 
@@ -525,34 +578,63 @@ func TestVerifC20EndToEnd(t *testing.T) {
 			}
 		}
 		barrierNo := 0
-		// applies the snapshot, then bumps the sentinels in a snapshot of their own and waits for both
-		apply := func(snap vfSnap) {
-			cfg := map[string]string{}
-			for n, o := range snap {
-				cfg[n] = vfRender(n, o)
+		// applyBarrier bumps the sentinels in a snapshot of their own (regular objects as in snap) and
+		// waits until both consumers report that bump or a later one. A bump that is not reported within
+		// a short while is followed by another one (progress only; the bound below is the liveness bound).
+		applyBarrier := func(snap vfSnap) {
+			first := barrierNo + 1
+			reported := map[string]bool{}
+			overall := time.After(vfWaitBound())
+			for {
+				barrierNo++
+				cfg := map[string]string{}
+				for n, o := range snap {
+					cfg[n] = vfRender(n, o)
+				}
+				b := fmt.Sprintf("b%d", barrierNo)
+				cfg[vfSentinelCtl] = vfRender(vfSentinelCtl, vfObj{"VfCtlA", b})
+				cfg[vfSentinelGate] = vfRender(vfSentinelGate, vfObj{"VfGateA", b})
+				send(cfg)
+				slice := time.After(2 * time.Second)
+			wait:
+				for {
+					select {
+					case got := <-led.barrier:
+						if i := strings.Index(got, "=b"); i > 0 {
+							no := 0
+							fmt.Sscanf(got[i+2:], "%d", &no)
+							if no >= first {
+								reported[got[:i]] = true
+							}
+						}
+						if reported[vfSentinelCtl] && reported[vfSentinelGate] {
+							return
+						}
+					case <-slice:
+						break wait
+					case <-overall:
+						vfWaitExpired = true
+						rt.Fatalf("VF-INCONCLUSIVE sentinels did not report barrier b%d.. within %v (reported %v)", first, vfBarrierWait, reported)
+					}
+				}
+				if vfWaitExpired {
+					rt.Fatalf("VF-INCONCLUSIVE sentinels did not report barrier b%d.. (earlier wait expired)", first)
+				}
 			}
-			prevB := fmt.Sprintf("b%d", barrierNo)
-			barrierNo++
-			b := fmt.Sprintf("b%d", barrierNo)
-			if barrierNo > 1 {
+		}
+		// applies the snapshot (sentinels unchanged), then the barrier
+		apply := func(snap vfSnap) {
+			if barrierNo > 0 {
+				cfg := map[string]string{}
+				for n, o := range snap {
+					cfg[n] = vfRender(n, o)
+				}
+				prevB := fmt.Sprintf("b%d", barrierNo)
 				cfg[vfSentinelCtl] = vfRender(vfSentinelCtl, vfObj{"VfCtlA", prevB})
 				cfg[vfSentinelGate] = vfRender(vfSentinelGate, vfObj{"VfGateA", prevB})
 				send(cfg)
 			}
-			cfg[vfSentinelCtl] = vfRender(vfSentinelCtl, vfObj{"VfCtlA", b})
-			cfg[vfSentinelGate] = vfRender(vfSentinelGate, vfObj{"VfGateA", b})
-			send(cfg)
-			want := map[string]bool{vfSentinelCtl + "=" + b: true, vfSentinelGate + "=" + b: true}
-			deadline := time.After(vfWaitBound())
-			for len(want) > 0 {
-				select {
-				case got := <-led.barrier:
-					delete(want, got)
-				case <-deadline:
-					vfWaitExpired = true
-					rt.Fatalf("VF-INCONCLUSIVE sentinels did not report barrier %s within %v (missing %v)", b, vfBarrierWait, want)
-				}
-			}
+			applyBarrier(snap)
 		}
 		// the sentinels come to life alone
 		apply(vfSnap{})
@@ -579,11 +661,10 @@ func TestVerifC20EndToEnd(t *testing.T) {
 			})
 		}
 
-		for step := 0; step < nsteps; step++ {
-			led.mu.Lock()
-			led.step = step
-			led.mu.Unlock()
-			next := cur.clone()
+		// filter instances closed by snapshots that were judged already
+		closedBefore := map[*vfCore]bool{}
+		genNext := func(base vfSnap) vfSnap {
+			next := base.clone()
 			rounds := rapid.SampledFrom([]int{1, 1, 1, 2, 2, 3}).Draw(rt, "rounds")
 			touched := map[string]int{}
 			for r := 0; r < rounds; r++ {
@@ -622,7 +703,7 @@ func TestVerifC20EndToEnd(t *testing.T) {
 			}
 			// net kind changes: steered away from behind a known finding, except when probing
 			for _, n := range vfNames {
-				o, ok1 := cur[n]
+				o, ok1 := base[n]
 				nw, ok2 := next[n]
 				if !ok1 || !ok2 || o.Kind == nw.Kind {
 					continue
@@ -642,24 +723,11 @@ func TestVerifC20EndToEnd(t *testing.T) {
 					break
 				}
 			}
-			var planDesc []string
-			for _, n := range vfNames {
-				m := rapid.SampledFrom([]int{0, 0, 0, 0, 0, 0, 0, 0, 0, 0, 0, 0, 0, 0, 1, 2, 4, 7}).Draw(rt, "panicMask")
-				if m == 0 || probing {
-					// a case that probes a known kind-change finding runs without injected panics: this
-					// target sees callbacks only, and an exempt (panicking) name would hide the finding
-					// until its delayed consequences surface under an unspecific key
-					continue
-				}
-				fn := rapid.SampledFrom(vfFilterNames).Draw(rt, "panicFilter")
-				led.mu.Lock()
-				led.plan[fmt.Sprintf("%d/%s", step, n)] = m
-				led.plan[fmt.Sprintf("%d/%s/%s", step, n, fn)] = m
-				led.mu.Unlock()
-				planDesc = append(planDesc, fmt.Sprintf("%s(/%s):%d", n, fn, m))
-			}
-			hist = append(hist, fmt.Sprintf("step %d: snapshot %s panic-plan(name(/filter):mask 1=init 2=inherit 4=close)=%v", step, next, planDesc))
-
+			return next
+		}
+		// judge compares the callbacks one snapshot caused with what the statement calls for, and (live)
+		// the live sets with the snapshot; false: the case is over
+		judge := func(step int, what string, next vfSnap, stepCalls []vfCall, live bool) bool {
 			// ---- expectations
 			expect := map[string][]string{}
 			changed := map[string]bool{}
@@ -743,15 +811,6 @@ func TestVerifC20EndToEnd(t *testing.T) {
 			add := func(name, kind, format string, args ...interface{}) {
 				disc = append(disc, vfDiscrepancy{name: name, kind: kind, text: fmt.Sprintf(format, args...)})
 			}
-
-			// ---- drive
-			led.mu.Lock()
-			callsBefore := len(led.calls)
-			led.mu.Unlock()
-			apply(next)
-			led.mu.Lock()
-			stepCalls := append([]vfCall{}, led.calls[callsBefore:]...)
-			led.mu.Unlock()
 
 			byName := map[string][]vfCall{}
 			panicked := map[string]bool{}
@@ -850,7 +909,7 @@ func TestVerifC20EndToEnd(t *testing.T) {
 					}
 				}
 				for _, c := range ocalls {
-					fresh := c.Core.nInit+c.Core.nInh == 1 && c.Core.nClose == 0
+					fresh := c.NInit+c.NInh == 1 && c.NClose == 0
 					switch c.Op {
 					case "init", "inherit":
 						if !fresh {
@@ -869,8 +928,8 @@ func TestVerifC20EndToEnd(t *testing.T) {
 						if !allowed(c.Core) {
 							add(n, "close-wrong-instance", "name %s: %s but the live instance was %s", n, c, oldDesc)
 						}
-						if c.Core.nClose != 1 {
-							add(n, "lifecycle-mismatch", "name %s: instance closed %d times: %s", n, c.Core.nClose, c)
+						if c.NClose != 1 {
+							add(n, "lifecycle-mismatch", "name %s: instance closed %d times: %s", n, c.NClose, c)
 						}
 					}
 				}
@@ -886,10 +945,10 @@ func TestVerifC20EndToEnd(t *testing.T) {
 				}
 				for _, c := range fcalls {
 					if c.Op == "close" {
-						if c.Core.nClose != 1 {
-							add(n, "lifecycle-mismatch", "pipeline %s: filter instance closed %d times: %s", n, c.Core.nClose, c)
+						if c.NClose != 1 {
+							add(n, "lifecycle-mismatch", "pipeline %s: filter instance closed %d times: %s", n, c.NClose, c)
 						}
-					} else if c.Core.nInit+c.Core.nInh != 1 || c.Core.nClose != 0 {
+					} else if c.NInit+c.NInh != 1 || c.NClose != 0 {
 						add(n, "lifecycle-mismatch", "pipeline %s: %s on a filter instance that was used before: %s", n, c.Op, c)
 					}
 				}
@@ -987,11 +1046,7 @@ func TestVerifC20EndToEnd(t *testing.T) {
 					openOf := func(cs []*vfCore) map[*vfCore]bool {
 						o := map[*vfCore]bool{}
 						for _, c := range cs {
-							k := c.nClose
-							if closedNow[c] {
-								k--
-							}
-							if k == 0 {
+							if !closedBefore[c] {
 								o[c] = true
 							}
 						}
@@ -1042,6 +1097,7 @@ func TestVerifC20EndToEnd(t *testing.T) {
 				}
 			}
 
+			if live {
 			// ---- live set == snapshot
 			st, _ := rc.Status().ObjectStatus.(*rctcpkg.Status)
 			for _, n := range vfNames {
@@ -1103,6 +1159,8 @@ func TestVerifC20EndToEnd(t *testing.T) {
 				}
 			}
 
+			}
+
 			if len(disc) > 0 {
 				key := ""
 				for _, d := range disc {
@@ -1138,8 +1196,8 @@ func TestVerifC20EndToEnd(t *testing.T) {
 				}
 				finish()
 				closeSuper()
-				vf.Violation(rt, key, "after step %d:\n%s\ncallbacks of this step: %v\nhistory:\n%s", step, strings.Join(lines, "\n"), calls, strings.Join(hist, "\n"))
-				return
+				vf.Violation(rt, key, "after step %d (%s):\n%s\ncallbacks of this snapshot: %v\nhistory:\n%s", step, what, strings.Join(lines, "\n"), calls, strings.Join(hist, "\n"))
+				return false
 			}
 
 			for _, n := range vfNames {
@@ -1149,8 +1207,183 @@ func TestVerifC20EndToEnd(t *testing.T) {
 					everAbsentAfterPresent[n] = true
 				}
 			}
+			for _, c := range stepCalls {
+				if c.Op == "close" {
+					closedBefore[c.Core] = true
+				}
+			}
 			model = newModel
 			cur = next
+			return true
+		}
+
+		blockAt := rapid.IntRange(0, 2*nsteps).Draw(rt, "blockAt") // >= nsteps: no blocked callback in this case
+		for step := 0; step < nsteps; step++ {
+			led.mu.Lock()
+			led.step = step
+			led.mu.Unlock()
+			next := genNext(cur)
+			var planDesc []string
+			for _, n := range vfNames {
+				m := rapid.SampledFrom([]int{0, 0, 0, 0, 0, 0, 0, 0, 0, 0, 0, 0, 0, 0, 1, 2, 4, 7}).Draw(rt, "panicMask")
+				if m == 0 || probing {
+					// a case that probes a known kind-change finding runs without injected panics: this
+					// target sees callbacks only, and an exempt (panicking) name would hide the finding
+					// until its delayed consequences surface under an unspecific key
+					continue
+				}
+				fn := rapid.SampledFrom(vfFilterNames).Draw(rt, "panicFilter")
+				led.mu.Lock()
+				led.plan[fmt.Sprintf("%d/%s", step, n)] = m
+				led.plan[fmt.Sprintf("%d/%s/%s", step, n, fn)] = m
+				led.mu.Unlock()
+				planDesc = append(planDesc, fmt.Sprintf("%s(/%s):%d", n, fn, m))
+			}
+
+			// fault plan entry "callback blocks until released": the Init/Inherit of one object of this
+			// snapshot parks on a harness channel (a consumer stalled in a slow callback) while fillers
+			// (>= the watcher queue's capacity of 10; they change the sentinels only, so both watchers get an
+			// event each) and one more generated snapshot go through the syncer; then it is released.
+			blockName := ""
+			if step == blockAt {
+				var cands []string
+				for _, n := range vfNames {
+					nw, present := next[n]
+					o, had := cur[n]
+					if present && (!had || o != nw) {
+						cands = append(cands, n)
+					}
+				}
+				if len(cands) > 0 {
+					blockName = rapid.SampledFrom(cands).Draw(rt, "blockName")
+				}
+			}
+			if blockName == "" {
+				hist = append(hist, fmt.Sprintf("step %d: snapshot %s panic-plan(name(/filter):mask 1=init 2=inherit 4=close)=%v", step, next, planDesc))
+				led.mu.Lock()
+				callsBefore := len(led.calls)
+				led.mu.Unlock()
+				apply(next)
+				led.mu.Lock()
+				stepCalls := append([]vfCall{}, led.calls[callsBefore:]...)
+				led.mu.Unlock()
+				if !judge(step, "single snapshot", next, vfWithoutMarkers(stepCalls), true) {
+					return
+				}
+				continue
+			}
+
+			vf.Class("blocked-callback-while-snapshots-queue-up")
+			nfill := rapid.SampledFrom([]int{2, 10, 10, 11, 12}).Draw(rt, "fillers")
+			next2 := genNext(next)
+			hist = append(hist, fmt.Sprintf("step %d: snapshot %s panic-plan(name(/filter):mask 1=init 2=inherit 4=close)=%v; the first Init/Inherit on %s BLOCKS until released", step, next, planDesc, blockName))
+			hist = append(hist, fmt.Sprintf("step %d (while blocked): %d sentinel-only snapshots, then snapshot %s; then release", step, nfill, next2))
+			led.mu.Lock()
+			callsBefore := len(led.calls)
+			led.block = fmt.Sprintf("%d/%s", step, blockName)
+			led.mu.Unlock()
+			mkcfg := func(snap vfSnap, b string) map[string]string {
+				cfg := map[string]string{}
+				for n, o := range snap {
+					cfg[n] = vfRender(n, o)
+				}
+				cfg[vfSentinelCtl] = vfRender(vfSentinelCtl, vfObj{"VfCtlA", b})
+				cfg[vfSentinelGate] = vfRender(vfSentinelGate, vfObj{"VfGateA", b})
+				return cfg
+			}
+			send(mkcfg(next, fmt.Sprintf("b%d", barrierNo)))
+			select {
+			case <-led.parked:
+			case <-time.After(vfWaitBound()):
+				vfWaitExpired = true
+				close(led.release)
+				rt.Fatalf("VF-INCONCLUSIVE the callback on %s that was to block was not called within %v", blockName, vfBarrierWait)
+			}
+			fillers := map[string]bool{}
+			var cfgs []map[string]string
+			for i := 0; i < nfill; i++ {
+				barrierNo++
+				b := fmt.Sprintf("b%d", barrierNo)
+				fillers[b] = true
+				cfgs = append(cfgs, mkcfg(next, b))
+			}
+			cfgs = append(cfgs, mkcfg(next2, fmt.Sprintf("b%d", barrierNo)))
+			pushed := make(chan struct{})
+			stopPush := make(chan struct{})
+			go func() {
+				defer close(pushed)
+				for _, cfg := range cfgs {
+					kv := map[string]string{}
+					for n, y := range cfg {
+						kv[prefix+n] = y
+					}
+					select {
+					case syncChan <- kv:
+					case <-stopPush:
+						return
+					}
+				}
+			}()
+			// release when everything was taken, or when the registry is parked on a full watcher queue
+			// (read from the goroutine dump: the unchanged registry blocks there until the consumer moves)
+			waitStart := time.Now()
+			for done := false; !done; {
+				select {
+				case <-pushed:
+					done = true
+				default:
+					if vfRegistryParkedInSend() {
+						vf.Class("registry-blocked-on-a-full-watcher-queue")
+						done = true
+					} else if time.Since(waitStart) > vfWaitBound() {
+						vfWaitExpired = true
+						close(stopPush)
+						close(led.release)
+						rt.Fatalf("VF-INCONCLUSIVE snapshots pushed behind a blocked callback were neither all taken nor did the registry park within %v", vfBarrierWait)
+					} else {
+						time.Sleep(50 * time.Microsecond)
+					}
+				}
+			}
+			close(led.release)
+			select {
+			case <-pushed:
+			case <-time.After(vfWaitBound()):
+				vfWaitExpired = true
+				close(stopPush)
+				rt.Fatalf("VF-INCONCLUSIVE the registry did not take the queued snapshots within %v after the release", vfBarrierWait)
+			}
+			applyBarrier(next2)
+			led.mu.Lock()
+			stepCalls := append([]vfCall{}, led.calls[callsBefore:]...)
+			led.mu.Unlock()
+			// callbacks of the first snapshot come before, those of the second after the consumer's
+			// first filler marker (each consumer handles its events in order)
+			var calls1, calls2 []vfCall
+			seenFiller := map[string]bool{}
+			for _, c := range stepCalls {
+				consumer := "rctc"
+				if c.Level == "ctl" {
+					consumer = "supervisor"
+				}
+				if c.Op == "marker" {
+					if fillers[c.Payload] {
+						seenFiller[consumer] = true
+					}
+					continue
+				}
+				if seenFiller[consumer] {
+					calls2 = append(calls2, c)
+				} else {
+					calls1 = append(calls1, c)
+				}
+			}
+			if !judge(step, "snapshot with the blocked callback", next, calls1, false) {
+				return
+			}
+			if !judge(step, "snapshot queued behind the blocked callback", next2, calls2, true) {
+				return
+			}
 		}
 		finish()
 		closeSuper()
